@@ -109,6 +109,16 @@ def make_jobs(ctx, stride=1, channels=(1, 2, 3), skip_major=(0x16,)):
                 # does not fit SDS's field (below 477 Hz) are asked for as well
                 sr = rng.choice([3200000, 3333334, 5000000, 5000001, 6000000, 9999999, 10000000, 10000001, 476, 477, 250] if f.major == 0x10
                                 else [3200000, 6000000, 320000000, 500000001, 600000000, 10 ** 9, 10 ** 9 + 1, 476, 477, 250, 4000])
+            if f.major == 0x08 and rng.random() < 0.5:
+                # VOC: the time-constant fields (type 1: 10^6 / sr in 8 bits, type 8: 128 * 10^6 / sr in 16 bits) -- the rate clause is EXACT
+                # (`rateOkG`), so the rates around the breakpoints of the divisor are asked for: divisor 255 / 256 (3906 / 3907 Hz), 65535 / 65536
+                # (1953 / 1954 Hz), 1 / 2 / 0 (500000, 500001, 10^6, 10^6 + 1; 64 * 10^6 (+ 1), 128 * 10^6 (+ 1)), and where truncation and rounding differ
+                sr = rng.choice([1953, 1954, 3906, 3907, 3921, 3922, 7999, 22050, 44100, 333333, 333334, 500000, 500001, 1000000, 1000001,
+                                 64000000, 64000001, 128000000, 128000001])
+            if f.major == 0x0A and rng.random() < 0.5:
+                # IRCAM: binary32 field -- ties to even at 2^24 + 1 / + 3, 2^25 + 2 / + 6, the cap from 2^31 - 64 on
+                sr = rng.choice([2 ** 24 - 1, 2 ** 24, 2 ** 24 + 1, 2 ** 24 + 3, 2 ** 25 + 2, 2 ** 25 + 6, 2 ** 30 + 63, 2 ** 30 + 64, 2 ** 30 + 65,
+                                 2 ** 31 - 193, 2 ** 31 - 192, 2 ** 31 - 65, 2 ** 31 - 64, 2 ** 31 - 1])
             B = G.block_frames(f, ch, sr)
             n = rng.choice([0, 1, 2, 3, max(B - 1, 0), B, B + 1, 2 * B + 1, 3 * B - 1, 4 * B + 2, 100, 257, 1000, 2731])
             n = min(n, 6000)
@@ -254,7 +264,7 @@ def analyse(j, script1, a, script2, b):
         P("info", "re-open reports %s channels, %d were requested" % (kv.get("ch"), ch), 1, k)
     if (got_fmt & 0x0FFFFFFF) != (j.fmt.word & 0x0FFFFFFF) and j.fmt.major != 0x04:
         P("info", "re-open reports format %08x, written as %08x" % (got_fmt, j.fmt.word), 1, k)
-    if not G.rate_ok(j.fmt, j.sr, int(kv.get("sr", -1))):
+    if not G.rate_ok(j.fmt, j.sr, int(kv.get("sr", -1)), ch):      # the exact clause on the whole geometry (`rateOkG`)
         P("rate", "re-open reports sample rate %s, requested %d" % (kv.get("sr"), j.sr), 1, k)
     if not (n <= F < n + j.B + j.pad):
         P("frames", "re-open reports %d frames; %d were written (block length %d, pad allowance %d): want N <= F < N + B" % (F, n, j.B, j.pad), 1, k)
